@@ -55,6 +55,21 @@ T9 = "one subtag = 9 bytes of storage, length 0..=9 symbolic, every byte 0x00-0x
 
 PROPS = {}
 
+
+def mk(*ds):
+    """merge unwind-rule dicts; rules are tried in order, so earlier (more specific) dicts win"""
+    out = {}
+    for d in ds:
+        for k_, v_ in d.items():
+            out.setdefault(k_, v_)
+    return out
+
+# CBMC-level pointer/bounds checks are redundant for safe Rust (Kani emits the Rust-level bounds and
+# overflow assertions itself); dropped in the large functional harnesses to fit memory
+NOPTR = ["--no-pointer-check", "--no-bounds-check"]
+STR_STUBS = ["std::string::String::push_str", "std::string::String::push"]
+EXT_STUBS = ["std::vec::Vec::push", "<[tinystr::TinyAsciiStr<8>]>::sort_unstable"]
+
 PROPS["C15"] = P(
     jobs=[
         J("c15_language_exact", desc="Language::from_bytes vs UTS#35 production on " + T9),
@@ -77,8 +92,8 @@ PROPS["C02"] = P(
         J("c02_tokens_1", unwind=6, uw=tok_uw(1), stubs=PARSER_STUBS, desc="LanguageIdentifier::try_from_iter(.., false) on 1 x T9 vs reference recogniser/canonicaliser"),
         J("c02_tokens_2", unwind=6, uw=tok_uw(2), stubs=PARSER_STUBS, desc="2 x T9", weight=2),
         J("c02_tokens_3", unwind=6, uw=tok_uw(3), stubs=PARSER_STUBS, desc="3 x T9", weight=3),
-        J("c02_bytes_3", unwind=7, uw=dict(tok_uw(4), **{r"Split|position|split_ref|c02::": 6}), stubs=PARSER_STUBS, desc="LanguageIdentifier::from_bytes on every byte string of length <= 3 vs reference split + recogniser", weight=3),
-        J("c02_bytes_4", tier="t", unwind=8, uw=dict(tok_uw(5), **{r"Split|position|split_ref|c02::": 7}), stubs=PARSER_STUBS, desc="every byte string of length <= 4", weight=4, mem_gb=16),
+        J("c02_bytes_3", unwind=7, uw=mk(tok_uw(4), {r"Split|position|split_ref|c02::": 6}), stubs=PARSER_STUBS, desc="LanguageIdentifier::from_bytes on every byte string of length <= 3 vs reference split + recogniser", weight=3),
+        J("c02_bytes_4", tier="t", unwind=8, uw=mk(tok_uw(5), {r"Split|position|split_ref|c02::": 7}), stubs=PARSER_STUBS, desc="every byte string of length <= 4", weight=4, mem_gb=16),
         J("c02_tokens_4", tier="t", unwind=6, uw=tok_uw(4), stubs=PARSER_STUBS, desc="4 x T9", weight=4, mem_gb=12),
     ],
     bounds="token level: 1..3 (quick) / 1..4 (thorough) subtags, each " + T9,
@@ -93,6 +108,7 @@ PROPS["C11"] = P(
         J("c11_language_matches", unwind=6, desc="Language::matches on two symbolic valid languages (incl. und) x 4 flag pairs"),
         J("c11_langid_formula_v1", unwind=6, uw=VAL_UW, desc="LanguageIdentifier::matches == formula: both sides any language/script?/region?/<=1 variant, flags symbolic", weight=2),
         J("c11_langid_laws_v1", unwind=6, uw=VAL_UW, desc="equality without flags, monotone in each flag, symmetric with swapped flags, reflexive (<=1 variant)", weight=3, mem_gb=12),
+        J("c11_locale_matches", unwind=6, uw=mk(VAL_UW, {r"binary_search": 4, r"Vec::<.*>::(insert|remove)|memmove|memcpy": 6, r"btree": 3}), stubs=EXT_STUBS, desc="Locale::matches with optional private tag / -u- attribute per side (arguments T9), <=1 variant; LanguageIdentifier vs &Locale", weight=3, mem_gb=12, cbmc=NOPTR),
         J("c11_langid_formula_v2", tier="t", unwind=6, uw=VAL_UW, desc="formula with <=2 variants per side", weight=3, mem_gb=12),
     ],
     bounds="both operands: any valid language (or und), optional script, optional region, 0..1 (quick) / 0..2 (thorough) variants; all four flag combinations",
@@ -110,21 +126,22 @@ PROPS["C17"] = P(
         J("c17_langid_parts_roundtrip", unwind=6, uw=VEC_UW, stubs=VEC_STUBS, desc="from_parts(into_parts(x)) == x, x any langid with 0..2 variants", weight=2),
         J("c17_from_parts_v0", unwind=6, uw=VEC_UW, stubs=VEC_STUBS, desc="from_parts with no variants == reference value"),
         J("c17_from_parts_v2", unwind=6, uw=VEC_UW, stubs=VEC_STUBS, desc="from_parts with 2 variants in any order / equal == reference canonical value", weight=2),
-        J("c17_from_parts_v3", tier="t", unwind=6, uw=VEC_UW, stubs=VEC_STUBS, desc="3 variants, any order, duplicates allowed", weight=3),
+        J("c17_from_parts_v3", unwind=6, uw=VEC_UW, stubs=VEC_STUBS, desc="3 variants, any order, duplicates allowed", weight=3),
     ],
     bounds="every valid subtag of each type (all T9 inputs the checked constructor accepts); language identifiers with 0..2 variants (round trip) and from_parts with 0, 2 (quick) or 3 (thorough) variants in arbitrary order with duplicates",
     outside="Locale::into_parts/from_parts with an extension string (see C05); more than 3 variants; std models of sort_unstable/to_vec/into_boxed_slice",
 )
 
-FMT_UW = {r"core::fmt|fmt::Write|String|str::|Display": 8, r"memcpy|memmove": 24}
+FMT_UW = {r"stubs::push_str|String::push_str": 10, r"core::fmt|fmt::Write|String|str::|Display": 8, r"memcpy|memmove": 24}
 PROPS["C12"] = P(
     jobs=[
         J("c12_langid_eq_ord_v1", unwind=6, uw=VAL_UW, desc="==, cmp, partial_cmp vs field-by-field reference, antisymmetry; <=1 variant per side", weight=2),
         J("c12_langid_eq_ord_v2", tier="t", unwind=6, uw=VAL_UW, desc="as above, <=2 variants per side", weight=3, mem_gb=12),
-        J("c12_langid_hash", unwind=6, uw=dict(VAL_UW, **{r"Fnv|hash": 24}), desc="equal values hash equally (FNV-1a hasher), <=2 variants", weight=2),
+        J("c12_langid_hash", unwind=6, uw=mk({r"Fnv|hash": 24}, VAL_UW), desc="equal values hash equally (FNV-1a hasher), <=2 variants", weight=2),
+        J("c12_routes_no_variants", unwind=6, uw=mk({r"Fnv|hash": 24}, VEC_UW, VAL_UW), stubs=VEC_STUBS, desc="set_variants(&[]) / clear_variants / from_parts(.., &[]) / never set: ==, same hash, Equal; any langid with <=2 variants", weight=2, mem_gb=12),
         J("c12_langid_ord_transitive", unwind=6, uw=VAL_UW, desc="cmp transitive on symbolic triples, <=1 variant", weight=3, mem_gb=12),
-        J("c12_langid_eq_iff_string_eq", unwind=6, uw=dict(VAL_UW, **FMT_UW), desc="x == y iff to_string equal, real Display/core::fmt, <=1 variant", weight=3, mem_gb=12),
-        J("c12_langid_eq_str", unwind=6, uw=dict(VAL_UW, **FMT_UW, **{r"c12::": 18, r"write_langid|write_txt": 10}), desc="li == &str iff str is the canonical text; str = any ASCII string <= 16 bytes", weight=3, mem_gb=12),
+        J("c12_langid_eq_iff_string_eq", unwind=6, uw=mk(FMT_UW, VAL_UW), stubs=STR_STUBS, desc="x == y iff to_string equal, real Display/core::fmt, <=1 variant", weight=3, mem_gb=12),
+        J("c12_langid_eq_str", unwind=6, uw=mk({r"c12::c12_langid_eq_str": 18, r"write_langid|write_txt": 10}, VAL_UW, FMT_UW), stubs=STR_STUBS, desc="li == &str iff str is the canonical text; str = any ASCII string <= 16 bytes", weight=3, mem_gb=12),
     ],
     bounds="pairs/triples of language identifiers: any valid language (or und), optional script, optional region, 0..1 (quick) / 0..2 (thorough) variants; &str operands: any ASCII string of <= 16 bytes",
     outside="Locale/ExtensionsMap ordering (see level_note), identifiers with more than 2 variants, strings longer than 16 bytes",
@@ -168,8 +185,11 @@ PROPS["C06"] = P(
         J("c06_kv_lang_script", unwind=6, uw=LK_UW, desc="all 378 LANG_SCRIPT keys"),
         J("c06_kv_lang_only", tier="t", unwind=6, uw=LK_UW, desc="all 7142 LANG_ONLY keys except bare und", weight=5, mem_gb=40, cbmc=["--no-pointer-check"], trace=False, timeout_t=5400),
         J("c06_cascade_und", unwind=6, uw=LK_UW, desc="arbitrary (und, script?, region?) vs reference cascade over the three und tables", weight=2),
+        J("c06_cascade_zh", unwind=6, uw=LK_UW, desc="(zh, script?, region?) vs reference cascade: concrete language with language-region and language-script entries", weight=2),
+        J("c06_cascade_sr", unwind=6, uw=LK_UW, desc="(sr, script?, region?) vs reference cascade", weight=2),
+        J("c06_cascade_unknown_qaa", unwind=6, uw=LK_UW, desc="(qaa = a language without CLDR entry, script?, region?): unchanged or a fallback that keeps the given subtags", weight=2),
         J("c06_cascade_lang", tier="t", unwind=6, uw=LK_UW, desc="arbitrary (language, script?, region?) vs reference cascade incl. the 7143-row table", weight=5, mem_gb=40, cbmc=["--no-pointer-check"], trace=False, timeout_t=5400),
-        J("c06_wrapper_und", unwind=6, uw=dict(VAL_UW, **LK_UW), desc="LanguageIdentifier::maximize bool + write-back, und language, <=1 variant", weight=2),
+        J("c06_wrapper_und", unwind=6, uw=mk(VAL_UW, LK_UW), desc="LanguageIdentifier::maximize bool + write-back, und language, <=1 variant", weight=2),
     ],
     bounds="K->V: every row of the five small tables (quick) and of LANG_ONLY (thorough) by symbolic index; cascade: every valid (script?, region?) with und language (quick), every valid (language, script?, region?) (thorough)",
     outside="quick tier does not touch the 7143-row language table; bare 'und' key; UTS #35 fallbacks the library does not implement are accepted either way (property text)",
@@ -180,7 +200,7 @@ PROPS["C07"] = P(
         J("c07_laws_und", unwind=6, uw=LK_UW, desc="kept subtags, all three filled, second maximize is None; arbitrary (und, script?, region?)"),
         J("c07_laws_lang", tier="t", unwind=6, uw=LK_UW, desc="same for arbitrary non-empty language (touches the 7143-row table)", weight=5, mem_gb=40, cbmc=["--no-pointer-check"], trace=False, timeout_t=5400),
         J("c07_full_is_fixpoint", tier="t", unwind=6, uw=LK_UW, desc="language+script+region all present => maximize is None / false / unchanged (closes idempotence); the language's emptiness is a niche value of its first byte, so CBMC also explores the table branch", weight=5, mem_gb=40, cbmc=["--no-pointer-check"], trace=False, timeout_t=5400),
-        J("c07_wrapper_und", unwind=6, uw=dict(VAL_UW, **LK_UW), desc="LanguageIdentifier::maximize: variants untouched, bool<=>changed, false=>unchanged, idempotent; und language, <=2 variants", weight=3, mem_gb=12),
+        J("c07_wrapper_und", unwind=6, uw=mk(VAL_UW, LK_UW), desc="LanguageIdentifier::maximize: variants untouched, bool<=>changed, false=>unchanged, idempotent; und language, <=2 variants", weight=3, mem_gb=12),
     ],
     bounds="every valid (script?, region?) with und language (quick); every valid (language, script?, region?) (thorough); wrapper with 0..2 variants",
     outside="Locale extensions attached to the identifier (Locale.id is a plain LanguageIdentifier field; extension state is not reachable from LanguageIdentifier::maximize)",
@@ -191,14 +211,13 @@ PROPS["C14"] = P(
         J("c14_rows_direct", cfg="nolikely", unwind=6, uw=LK_UW, desc="same rows, built without the likelysubtags feature"),
         J("c14_rows_likely", tier="t", unwind=6, uw=LK_UW, desc="script-less rows of RTL-listed languages, likelysubtags on (7143-row table)", weight=5, mem_gb=40, cbmc=["--no-pointer-check"], trace=False, timeout_t=5400),
         J("c14_rows_likely", cfg="nolikely", unwind=6, uw=LK_UW, desc="same rows without likelysubtags: may differ only for multi-direction languages"),
-        J("c14_script_decides", tier="t", unwind=6, uw=dict(VAL_UW, **LK_UW), desc="arbitrary identifier with <=1 variant: listed script decides; unlisted script + non-RTL language => LTR; variants irrelevant (likelysubtags on: the RTL-language branch drags in the 7143-row table)", weight=5, mem_gb=40, cbmc=["--no-pointer-check"], trace=False, timeout_t=5400),
-        J("c14_script_decides", cfg="nolikely", unwind=6, uw=dict(VAL_UW, **LK_UW), desc="same, without likelysubtags", weight=2),
+        J("c14_script_decides", tier="t", unwind=6, uw=mk(VAL_UW, LK_UW), desc="arbitrary identifier with <=1 variant: listed script decides; unlisted script + non-RTL language => LTR; variants irrelevant (likelysubtags on: the RTL-language branch drags in the 7143-row table)", weight=5, mem_gb=40, cbmc=["--no-pointer-check"], trace=False, timeout_t=5400),
+        J("c14_script_decides", cfg="nolikely", unwind=6, uw=mk(VAL_UW, LK_UW), desc="same, without likelysubtags", weight=2),
     ],
     bounds="all 709 non-root CLDR locale directories by symbolic row index in both feature configurations; arbitrary valid (language, script?, region?, <=1 variant) for the script/language clauses",
     outside="arbitrary identifiers of RTL-listed languages without a listed script (their answer is defined only through the rows); quick tier skips the rows that reach the 7143-row table with likelysubtags on",
 )
 
-EXT_STUBS = ["std::vec::Vec::push", "<[tinystr::TinyAsciiStr<8>]>::sort_unstable"]
 def ext_uw(k):
     d = dict(tok_uw(k))
     d.update({r"try_from_iter": k + 2, r"btree": 3, r"dedup": k + 2, r"is_type|is_attribute|is_language_subtag|Iter<'_, u8>": 10})
@@ -222,7 +241,6 @@ def xuw(k):
     d = ext_uw(k)
     d.update({r"xspec::|iter_is|ulist_is|tlist_is|plist_is|count_t?keys|insert_sorted": k + 4, r"spec::infos|toks_len|toks9|h::slices": k + 2})
     return d
-NOPTR = ["--no-pointer-check", "--no-bounds-check"]
 def uf(name, lens, tier="q", **kw):
     kw.setdefault("mem_gb", 12)
     kw.setdefault("cbmc", NOPTR)
@@ -237,8 +255,8 @@ PROPS["C03"] = P(
         uf("c03_u_3", [3]), uf("c03_u_2", [2]), uf("c03_u_2_3", [2, 3]), uf("c03_u_3_3", [3, 3]), uf("c03_u_8_2_4", [8, 2, 4]),
         uf("c03_u_2_4_1", [2, 4, 1]), uf("c03_u_2_3_9", [2, 3, 9]), uf("c03_u_3_0", [3, 0]), uf("c03_u_1", [1]), uf("c03_u_9", [9]),
         uf("c03_u_2_2", [2, 2], tier="t"), uf("c03_u_2_3_2_3", [2, 3, 2, 3], tier="t"),
-        tf("c03_t_2", [2]), tf("c03_t_2_3", [2, 3]), tf("c03_t_3", [3]), tf("c03_t_2_3_1", [2, 3, 1]), tf("c03_t_2_2_3", [2, 2, 3]),
-        tf("c03_t_2_5_2", [2, 5, 2], tier="t"), tf("c03_t_2_3_2_3", [2, 3, 2, 3], tier="t"),
+        tf("c03_t_2", [2]), tf("c03_t_2_3", [2, 3]), tf("c03_t_3", [3]), tf("c03_t_2_3_1", [2, 3, 1], tier="t", mem_gb=44, timeout_t=3000, trace=False), tf("c03_t_2_2_3", [2, 2, 3]),
+        tf("c03_t_2_5_2", [2, 5, 2], tier="t", mem_gb=44, timeout_t=3000, trace=False), tf("c03_t_2_3_2_3", [2, 3, 2, 3], tier="t"),
         J("c03_x_1", unwind=6, uw=xuw(1), stubs=EXT_STUBS, desc="-x- body, 1 x T9"),
         J("c03_x_2", unwind=6, uw=xuw(2), stubs=EXT_STUBS, desc="-x- body, 2 x T9"),
         J("c03_x_3", unwind=6, uw=xuw(3), stubs=EXT_STUBS, desc="-x- body, 3 x T9"),
@@ -246,24 +264,66 @@ PROPS["C03"] = P(
     bounds="", outside="",
 )
 
-STR_STUBS = ["std::string::String::push_str", "std::string::String::push"]
-FMT2 = {r"stubs::push_str|String::push_str": 10, r"core::fmt|fmt::Write|String|str::|Display|write_str|write_char|push_str|extend": 10, r"memcpy|memmove": 24, r"bytes_are|is_canonical_langid": 50,
+FMT2 = {r"bytes_are|is_canonical_langid": 50, r"stubs::push_str|String::push_str": 10, r"core::fmt|fmt::Write|String|str::|Display|write_str|write_char|push_str|extend": 10, r"memcpy|memmove": 24, r"bytes_are|is_canonical_langid": 50,
         r"write_langid|write_txt": 10, r"Tok::lit": 10, r"c04::|c05::": 8}
 PROPS["C04"] = P(
     jobs=[
-        J("c04_subtag_display", unwind=6, uw=dict(VAL_UW, **FMT2), desc="Display/as_str of every valid subtag of the four types == reference text"),
-        J("c04_langid_display_v0", unwind=6, uw=dict(VAL_UW, **FMT2), desc="to_string of any langid without variants == reference serialiser; strict recogniser accepts", weight=2),
-        J("c04_langid_display_v2", unwind=6, uw=dict(VAL_UW, **FMT2), desc="same with 0..2 variants", weight=3, mem_gb=12),
-        J("c04_canonicalize_tokens_2", unwind=6, uw=dict(tok_uw(2), **FMT2), stubs=PARSER_STUBS, desc="token-level canonicalize on 2 x T9: string == reference canonicalisation, not longer than input", weight=3, mem_gb=12),
-        J("c04_canonicalize_tokens_3", tier="t", unwind=6, uw=dict(tok_uw(3), **FMT2), stubs=PARSER_STUBS, desc="3 x T9", weight=4, mem_gb=16),
+        J("c04_subtag_display", unwind=6, uw=mk(FMT2, VAL_UW), desc="Display/as_str of every valid subtag of the four types == reference text"),
+        J("c04_langid_display_v0", unwind=6, uw=mk(FMT2, VAL_UW), desc="to_string of any langid without variants == reference serialiser; strict recogniser accepts", weight=2),
+        J("c04_langid_display_v2", unwind=6, uw=mk(FMT2, VAL_UW), desc="same with 0..2 variants", weight=3, mem_gb=12),
+        J("c04_canonicalize_tokens_2", unwind=6, uw=mk(FMT2, tok_uw(2)), stubs=PARSER_STUBS, desc="token-level canonicalize on 2 x T9: string == reference canonicalisation, not longer than input", weight=3, mem_gb=12),
+        J("c04_canonicalize_tokens_3", tier="t", unwind=6, uw=mk(FMT2, tok_uw(3)), stubs=PARSER_STUBS, desc="3 x T9", weight=4, mem_gb=16),
     ],
     bounds="", outside="",
 )
 PROPS["C05"] = P(
     jobs=[
-        J("c05_subtag_roundtrip", unwind=6, uw=dict(VAL_UW, **FMT2), desc="from_str(to_string(x)) == x for every valid subtag of the four types", weight=2),
-        J("c05_langid_reparse_tokens", unwind=6, uw=dict(tok_uw(5), **FMT2, **VAL_UW), stubs=PARSER_STUBS, desc="any langid with <=2 variants: its own printed subtags re-parse to an equal value", weight=3, mem_gb=12),
-        J("c05_canonicalize_idempotent_2", unwind=6, uw=dict(tok_uw(2), **FMT2), stubs=PARSER_STUBS, desc="2 x T9: canonical form re-parses to the same value", weight=3, mem_gb=12),
+        J("c05_subtag_roundtrip", unwind=6, uw=mk(FMT2, VAL_UW), desc="from_str(to_string(x)) == x for every valid subtag of the four types", weight=2),
+        J("c05_langid_reparse_tokens", unwind=6, uw=mk(FMT2, tok_uw(5), VAL_UW), stubs=PARSER_STUBS, desc="any langid with <=2 variants: its own printed subtags re-parse to an equal value", weight=3, mem_gb=12),
+        J("c05_canonicalize_idempotent_2", unwind=6, uw=mk(FMT2, tok_uw(2)), stubs=PARSER_STUBS, desc="2 x T9: canonical form re-parses to the same value", weight=3, mem_gb=12),
+    ],
+    bounds="", outside="",
+)
+
+PROPS["C09"] = P(
+    jobs=[
+        J("c09_case_1", unwind=6, uw=mk(tok_uw(1), {r"recase|c09::": 10}), stubs=PARSER_STUBS, desc="1 x T9 vs the same subtag under a symbolic letter-case mask"),
+        J("c09_case_2", unwind=6, uw=mk(tok_uw(2), {r"recase|c09::": 10}), stubs=PARSER_STUBS, desc="2 x T9 under a symbolic case mask", weight=3, mem_gb=12),
+        J("c09_case_3", tier="t", unwind=6, uw=mk(tok_uw(3), {r"recase|c09::": 10}), stubs=PARSER_STUBS, desc="3 x T9 under a symbolic case mask", weight=4, mem_gb=20),
+        J("c09_variant_order", tier="t", unwind=6, uw=mk(tok_uw(4), {r"c09::": 10}), stubs=PARSER_STUBS, desc="[L,V1,V2] vs [L,V2,V1] vs [L,V1,V2,V1], all T9", weight=5, mem_gb=24),
+        J("c09_separators_4", unwind=8, uw=mk(tok_uw(5), {r"Split|position|c09::": 7}), stubs=PARSER_STUBS, desc="every byte string <= 4 bytes with '-'/'_' exchanged under a symbolic mask, through from_bytes", weight=4, mem_gb=16),
+    ],
+    bounds="", outside="",
+)
+C10_UW = {r"c10::|set_contains|set_remove|insert_sorted|iter_is|ulist_is|plist_is": 6, r"binary_search": 4, r"Vec::<.*>::(insert|remove)|contains|memmove|memcpy": 6, r"btree": 3, r"dedup": 5}
+PROPS["C10"] = P(
+    jobs=[
+        J("c10_attr_history_2", unwind=6, uw=C10_UW, stubs=["<[tinystr::TinyAsciiStr<8>]>::sort_unstable"], desc="attribute set: all histories of 2 symbolic ops (set/remove/has/clear) with T9 arguments vs sorted-set model", weight=2, mem_gb=12, cbmc=NOPTR),
+        J("c10_attr_history_3", tier="t", unwind=6, uw=C10_UW, stubs=["<[tinystr::TinyAsciiStr<8>]>::sort_unstable"], desc="histories of 3 ops", weight=4, mem_gb=24, cbmc=NOPTR),
+        J("c10_tag_history_2", unwind=6, uw=C10_UW, stubs=EXT_STUBS, desc="private tags: all histories of 2 symbolic ops (add/remove/has/clear) vs sorted-multiset model", weight=2, mem_gb=12, cbmc=NOPTR),
+        J("c10_tag_history_3", tier="t", unwind=6, uw=C10_UW, stubs=EXT_STUBS, desc="histories of 3 ops", weight=4, mem_gb=24, cbmc=NOPTR),
+        J("c10_variants_0", unwind=6, uw=mk(VEC_UW, VAL_UW, C10_UW), stubs=VEC_STUBS, desc="set_variants(&[]) on any langid; has_variant; clear_variants", weight=2),
+        J("c10_variants_2", unwind=6, uw=mk(VEC_UW, VAL_UW, C10_UW), stubs=VEC_STUBS, desc="set_variants with 2 symbolic variants (any order/dup); has_variant; clear_variants", weight=3, mem_gb=12),
+        J("c10_variants_3", tier="t", unwind=6, uw=mk(VEC_UW, VAL_UW, C10_UW), stubs=VEC_STUBS, desc="3 symbolic variants", weight=4, mem_gb=16),
+    ],
+    bounds="", outside="",
+)
+
+PROPS["C19"] = P(
+    jobs=[
+        J("c19_serialize_canonical", cfg="serde", unwind=6, uw=mk({r"c19::|Cap": 50}, VAL_UW, FMT2), stubs=STR_STUBS, desc="Serialize of any langid (<=1 variant) through a capturing Serializer == reference canonical string", weight=2, mem_gb=12),
+        J("c19_deserialize_str_3", cfg="serde", unwind=7, uw=mk(tok_uw(4), {r"Split|position|c19::": 6}), stubs=PARSER_STUBS, desc="Deserialize(visit_str(s)) vs s.parse() for every ASCII string of <= 3 bytes", weight=3, mem_gb=12),
+        J("c19_non_string_rejected", cfg="serde", unwind=6, desc="bool / u64 / i64 / f64 / unit / none / bytes inputs: Err, no panic"),
+    ],
+    bounds="", outside="",
+)
+
+BIG = dict(mem_gb=44, cbmc=["--no-pointer-check", "--no-bounds-check"], trace=False, timeout_t=6000, weight=6)
+PROPS["C08"] = P(
+    jobs=[
+        J("c08_laws_und", tier="t", unwind=6, uw=LK_UW, desc="single-call laws of minimize for (und, script?, region?): result within the maximised form, one of the three shapes, maximizes back", **BIG),
+        J("c08_wrapper_und", tier="t", unwind=6, uw=mk(VAL_UW, LK_UW), desc="LanguageIdentifier::minimize wrapper: variants untouched, bool, unchanged on false (und language)", **BIG),
+        J("c08_laws_lang", tier="t", unwind=6, uw=LK_UW, desc="same laws for any non-empty language", **BIG),
     ],
     bounds="", outside="",
 )
